@@ -533,6 +533,8 @@ class Interp:
 
     def ev_Attribute(self, st, fr, e):
         out = []
+        if isinstance(e.value, ast.Name) and e.value.id in st.loc and self.is_mutable(st.loc[e.value.id]):
+            return self.getattr(st, fr, PlaceV(("loc", e.value.id)), e.attr)
         for s, v in self.ev(st, fr, e.value):
             if isinstance(v, Exit):
                 out.append((s, v))
@@ -571,7 +573,7 @@ class Interp:
         if isinstance(v, ObjV):
             # detached object held in a local: should have been wrapped as a local place by ev_Name callers
             raise Unsupported(f"attribute {attr} on detached object value")
-        if isinstance(v, (RefV, ExcV, CoroV, FuncV, TupleV, SeqV, KwV, StrV, IntV, BytesV, CollV, GenV, BoolV)):
+        if isinstance(v, (RefV, ExcV, CoroV, FuncV, TupleV, SeqV, KwV, StrV, IntV, BytesV, CollV, GenV, BoolV, ClassV)):
             return self.theory.value_attr(st, fr, v, attr)
         raise Unsupported(f"attribute {attr} on {type(v).__name__}")
 
@@ -762,6 +764,9 @@ class Interp:
             has_self = True
         dfr = Frame(fi, fi.module, selfv, fr.depth + 1)
         args = self.bind_args(st, fi.node, pos, kws, has_self, dfr)
+        if "classmethod" in fi.decorators and fi.cls is not None:
+            first = (fi.node.args.posonlyargs + fi.node.args.args)[0].arg
+            args[first] = ClassV(selfv.cls if isinstance(selfv, SelfV) else fi.cls)
         if fi.is_async:
             return [(st, CoroV("repo", fi, args, selfv))]
         return self.run_repo(st, fr, fi, selfv, args, awaited=False)
@@ -785,9 +790,12 @@ class Interp:
         saved = st.loc
         st = st.fork()
         st.loc = dict(args)
+        st.loc.update({k: v for k, v in saved.items() if k.startswith("$")})  # thread-global ghost locals
         out = []
         for s, ex in self.block(st, fr, fi.node.body):
+            ghosts = {k: v for k, v in s.loc.items() if k.startswith("$")}
             s.loc = dict(saved)
+            s.loc.update(ghosts)
             if ex.kind == Exit.RAISE:
                 out.append((s, ex))
             elif ex.kind == Exit.RETURN:
@@ -814,9 +822,12 @@ class Interp:
         saved = st.loc
         st = st.fork()
         st.loc = dict(args)
+        st.loc.update({k: v for k, v in saved.items() if k.startswith("$")})
         out = []
         for s, ex in self.block(st, dfr, node.body):
+            ghosts = {k: v for k, v in s.loc.items() if k.startswith("$")}
             s.loc = dict(saved)
+            s.loc.update(ghosts)
             if ex.kind == Exit.RAISE:
                 out.append((s, ex))
             elif ex.kind == Exit.RETURN:
@@ -963,7 +974,7 @@ class Interp:
                 res = self.run_repo(st, fr, ps, obj, self.bind_args(st, ps.node, [v], {}, True, fr), awaited=False)
                 return [(s, x if isinstance(x, Exit) else NORMAL) for s, x in res]
             if self.theory.may_set_field(st, fr, obj, attr):
-                st.sh[attr] = v
+                st.sh[attr] = self.theory.coerce_field(st, attr, st.sh[attr], v)
                 return [(st, NORMAL)]
             raise Unsupported(f"write to undeclared attribute self.{attr}")
         if isinstance(obj, PlaceV):
